@@ -24,6 +24,7 @@ from vlib.common.core import Collector, case_rng, guarded
 
 ID = "C17"
 LEVEL = "exploration"
+MANIFEST = {'engine': 'E7-codec', 'kind': 'generated message values through the real encoders, offline comparison', 'technique': 'runtime round-trip monitors on the real encoders/decoders over generated boundary and random message values (incl. real UDP shm server and real zmq frames)', 'text': "Every message value generated (boundary grid of sizes/strings, then seeded random) is pushed through the repository's own ser/deser pair and compared; values inside the domain must not raise, values outside must raise or come back unchanged. Held = on all values generated, not on the whole domain.", 'note': 'Trusts pickle/orjson/pydantic/libzmq themselves; inside-domain for sizes is 0..2^48; datagram size limit (1024 B) is transport, not encoding.'}
 RULE = (
     "cases = one message value per encoder (boundary grid of integers 0,1,2^31+-1,2^32-1,2^32,2^32+1,2^40,2^48,"
     "2^63-1 crossed with empty/1-char/24-hex/printable/255-char strings, then seeded random values); a case is "
